@@ -5,7 +5,7 @@ extern crate log;
 extern crate loggerv;
 
 use std::convert::TryFrom;
-use std::fs::create_dir;
+use std::fs::create_dir_all;
 use std::path::{Path, PathBuf};
 
 use crate::check::ast::ASTTy;
@@ -74,7 +74,7 @@ pub fn transpile_dir(
 
     let out_dir = dir.join(target.unwrap_or(TARGET));
     if !out_dir.exists() {
-        create_dir(&out_dir).map_err(|e| vec![e.to_string()])?;
+        create_dir_all(&out_dir).map_err(|e| vec![format!("{}: {}", e, out_dir.display())])?;
     }
     info!("Input is '{}'", src_path.display());
     info!("Output will be stored in '{}'", out_dir.display());
